@@ -115,9 +115,14 @@ class Session:
                     self.resolved.append(system)
                 del self.requesters[system]
 
+    def plain_data_request(self):
+        """a data transaction of this side: S1F1 (W) sent from an application thread that waits for the reply (kind 0)"""
+        import secsgem.secs.functions
+        return self.proto.send_and_waitfor_response(secsgem.secs.functions.SecsS01F01())
+
     def open_request(self, kind):
         """this side sends Select/Deselect/Linktest.req from an application thread and waits for the response"""
-        fn = {1: self.plain_select_req, 3: self.proto.send_deselect_req, 5: self.proto.send_linktest_req}[kind]
+        fn = {0: self.plain_data_request, 1: self.plain_select_req, 3: self.proto.send_deselect_req, 5: self.proto.send_linktest_req}[kind]
         before = len(self.rig.conn.sent)
         holder = {"done_event": threading.Event()}
 
@@ -277,7 +282,7 @@ def rand_history(rnd, n, active=False):
         elif c < 0.7:
             tag = f"t{len(tags)}"
             tags.append(tag)
-            evs.append(("open", rnd.choice([1, 3, 5]), tag))
+            evs.append(("open", rnd.choice([1, 3, 5, 0, 0]), tag))
         elif c < 0.78 and tags:
             evs.append(("giveup", rnd.choice(tags)))
         elif c < 0.86:
@@ -332,6 +337,12 @@ def gen_cases(rnd, tier):
         [("connected",), ("open", 1, "a"), ("ctrl", 2, "a", 3), ("open", 1, "b"), ("ctrl", 2, "b", 0), ("open", 3, "c"), ("ctrl", 4, "c", 0)],
         [("connected",), ("ctrl", 1, 8, 0), ("closing",), ("ctrl", 5, 9, 0), ("ctrl", 1, 10, 0), ("ctrl", 3, 11, 0), ("closed",), ("connected",), ("ctrl", 5, 12, 0)],
         [("connected",), ("ctrl", 1, 8, 0), ("open", 5, "a"), ("data", "a", 1, 2, False, True), ("open", 5, "b"), ("giveup", "b"), ("ctrl", 6, "b", 0)],
+        # D77: a data secondary answers an open DATA transaction only; with the system bytes of an open Linktest / Deselect / Select request it is
+        # a message for the application, the control request stays open and is answered by its own response afterwards
+        [("connected",), ("ctrl", 1, 8, 0), ("open", 5, "a"), ("data", "a", 1, 2, False, True), ("ctrl", 6, "a", 0), ("open", 0, "d"), ("data", "d", 1, 2, False, True),
+         ("open", 3, "c"), ("data", "c", 6, 12, False, True), ("data", "c", 9, 5, False, True), ("ctrl", 4, "c", 0)],
+        [("connected",), ("open", 1, "a"), ("ctrl", 1, 8, 0), ("data", "a", 1, 2, False, True), ("data", "a", 1, 0, False, True), ("ctrl", 2, "a", 0), ("open", 0, "d"),
+         ("data", "d", 1, 1, True, True), ("data", "d", 1, 14, False, True), ("open", 0, "e"), ("giveup", "e"), ("data", "e", 1, 2, False, True)],
         # a response of ANOTHER type under the system bytes of an open control request: no effect, the request stays open
         [("connected",), ("open", 5, "a"), ("ctrl", 2, "a", 0), ("data", 9, 1, 1, True, True), ("ctrl", 4, "a", 0), ("ctrl", 6, "a", 0), ("ctrl", 1, 8, 0), ("open", 5, "b"), ("ctrl", 4, "b", 0),
          ("data", 10, 1, 1, True, True), ("open", 3, "c"), ("ctrl", 6, "c", 0), ("ctrl", 2, "c", 0), ("ctrl", 4, "c", 0), ("ctrl", 6, "b", 0)],
